@@ -213,6 +213,30 @@ CLAIMS = {
    technique="Lean 4 proof: closed-form/induction in steps of 7 + kernel decide on the regenerated 14-entry table; differential tie", ref="6 (C15)"),
 }
 
+IO = (" Shared obligation io_sites_accounted (Crd/Props/IO.lean): every use of the io, bufio, os, io/ioutil and io/fs packages and every direct "
+      "Read/Peek/Scan/Seek/Stat on their readers, listed from the type-checked source on every run, equals the nine uses accounted for (input opened once and "
+      "read to the end, output through one os.Create or stdout; no limited, windowed or token-wise reader); when it breaks the `sizes` stream climbs to 272 MB "
+      "looking for the length at which a result changes.")
+ADDENDA = {
+ 'C01': " The YAML documents of the tie are written in four spellings (double-quoted, plain incl. flow sequences, single-quoted, anchors/aliases/`<<` merges); "
+        "fixed families: user chords named by digits next to ambiguous interval numbers, chords taking over another chord's symbol or long name.",
+ 'C02': " Documents in four YAML spellings incl. zero-padded numbers written plain (`values: [010]`).",
+ 'C03': " Pieces with three key declarations (first key or its enharmonic twin again third; each on a chord or a rest; all key pairs thorough).",
+ 'C04': IO + " Stream `sizes` (padding oracles 70 KB .. 17 MB, thorough 68 MB).",
+ 'C05': " Key-triple pieces in `conv`; `threeway` returns to an earlier key a third of the time.",
+ 'C07': " Documents in four YAML spellings: texts and whole metadata maps repeated through aliases and `<<` merges, zero-padded bpm/meter written plain.",
+ 'C09': IO,
+ 'C10': IO,
+ 'C11': " every_accepted_sign_known: every entry of the regenerated token table of kind SHARP/FLAT is read as sharp/flat by the converters. `variants` probes the "
+        "real lexer with ~1,000 candidate runes and uses every rune lexed like `#`/`b` as an equivalent spelling; leading zeros in runs of up to 1,000.",
+ 'C12': IO + " `repeat` also runs dictionaries with one faulty entry among good ones 40 (120) times each.",
+ 'C13': " Also runs the `conv` stream (the scale applied after key changes carried by chords and rests).",
+ 'C14': IO + " Stream `keyconv`: `crd info key conv` through the binary, commands of up to 100,000 (131,000) letters incl. 65,535..65,537, every third case via -o onto an existing file.",
+ 'C15': " Stream `cdescribe`: `crd info chord describe` through the binary with user attributes/chords (compound intervals before and after simple ones of the "
+        "same class, repeated intervals, attribute files also written without quotes), each interval compared with the model and with `info attr describe` alone.",
+ 'C16': " Fixed families: user chords whose long name is another chord's symbol (or whose symbol is another chord's long name), alone, with a child, defined after the child.",
+}
+
 def main():
     checks = []
     na = []
@@ -224,7 +248,7 @@ def main():
         checks.append(dict(
             property_id=i, quick_cmd="./check %s quick" % i, thorough_cmd="./check %s thorough" % i,
             evidence_file="/verif/evidence/%s.json" % i, replay_cmd_template="./check replay {path}", engine="lean-crd",
-            level_claimed=dict(category=c.get('category', 'proof'), text=c['text'], design_ref="DESIGN.md section " + c['ref']),
+            level_claimed=dict(category=c.get('category', 'proof'), text=c['text'] + ADDENDA.get(i, ''), design_ref="DESIGN.md section " + c['ref']),
             level_note=NOTE + c['note'], technique=c['technique']))
     hooks = dict(guard="verif", enable="go build -tags verif (the harness links /repo's packages through their exported API; no hook files were needed)",
                  baseline_off_cmd="cd /repo && GOFLAGS=-mod=mod GOPROXY=off go test -json -vet=off -count=1 ./...",
